@@ -175,16 +175,35 @@ package mvp4
 // which no real pc equals); shouldFlushPipeline(pc) then reports a flush
 // exactly when an armed prediction differs from the resolved pc, and disarms.
 //@ func (*simpleBranchUnit).assert
-//@   mode bv
-//@   requires bu != nil && runner.Runner != nil
+//@   mode int
+//@   requires bu != nil && runner.Runner != nil && runner.Pc <= 2147483643
 //@   ensures risc.insType(runner.Runner).IsUnconditionalBranch() ==> bu.toCheck && bu.expectation == -1
 //@   ensures risc.insType(runner.Runner).IsConditionalBranch() ==> bu.toCheck && bu.expectation == runner.Pc + 4
 //@   ensures !risc.insType(runner.Runner).IsBranch() ==> bu.toCheck == old(bu.toCheck) && bu.expectation == old(bu.expectation)
 //@   assigns bu.toCheck, bu.expectation
 
 //@ func (*simpleBranchUnit).shouldFlushPipeline
-//@   mode bv
+//@   mode int
 //@   requires bu != nil
 //@   ensures result == (old(bu.toCheck) && old(bu.expectation) != pc)
 //@   ensures !bu.toCheck && bu.expectation == old(bu.expectation)
 //@   assigns bu.toCheck
+
+// ---------------------------------------------------------------- execute unit (C03)
+//@ spec func armed(eu *executeUnit) bool = \
+//@    (risc.insType(eu.runner.Runner).IsConditionalBranch() ==> eu.branchUnit.toCheck && eu.branchUnit.expectation == eu.runner.Pc + 4) \
+//@    && (risc.insType(eu.runner.Runner).IsUnconditionalBranch() ==> eu.branchUnit.toCheck && eu.branchUnit.expectation == -1)
+
+// run executes the held instruction. Every execution that changes the pc
+// either requests a flush to its target (return 3) or was predicted right: a
+// conditional branch whose target is the fall-through pc+4 (MVP-4 has no
+// target buffer: a jump always flushes, unless it targets the impossible pc
+// -1). A store that hits the data cache (return 2) never changes the pc.
+//@ func (*executeUnit).run
+//@   requires eu != nil && eu.branchUnit != nil && eu.mmu != nil && eu.runner.Runner != nil && risc.wfBoard(ctx) && risc.smallBoard(ctx) && eu.runner.Pc <= 2147483643 && armed(eu) && outBus != nil
+//@   assume-before InstructionRunner.Run: risc.runPre(eu.runner.Runner, ctx, memory)
+//@   return 2: !execution.PcChange
+//@   return 3: execution.PcChange
+//@   return 4: execution.PcChange && risc.insType(eu.runner.Runner).IsUnconditionalBranch() ==> execution.NextPc == -1
+//@   return 4: execution.PcChange && risc.insType(eu.runner.Runner).IsConditionalBranch() ==> execution.NextPc == eu.runner.Pc + 4
+//@   return 4: execution.PcChange ==> risc.insType(eu.runner.Runner).IsBranch()
